@@ -267,6 +267,10 @@ func judgeC13(c *c13Case, obs *c13Obs, o *Outcome) {
 		if obs.InitiatorConnAtRet {
 			o.Fail("C13/initiator-still-connected/"+key, "a connection dialled by the Client was still connected when Client.Close returned (%q)", obs.TermErr)
 		}
+	} else if c.Initiator == "client-finish" && obs.InitiatorConnAtRet && obs.TermErr != "" {
+		// the peer was consuming and answering all along: a FinishSession that fails here and leaves its connection open has
+		// neither finished the session in an orderly way nor released it
+		o.Fail("C13/initiator-still-connected-after-failed-finish/"+key, "ClientChannel.FinishSession returned %q and the client's transport was still connected", obs.TermErr)
 	} else if c.Initiator != "server-close" {
 		if obs.InitiatorConnAtRet && obs.TermErr == "" {
 			o.Fail("C13/initiator-still-connected/"+key, "Transport.Connected() of the initiator was still true when %s returned", c.Initiator)
